@@ -43,20 +43,20 @@ PYAGREE = {
     'C05': ['Pdu', 'LayerRx'],
     'C06': ['Pdu', 'LayerRx'],
     'C07': ['MiscTimer'],
-    'C08': ['MiscTimer', 'LayerTx'],
+    'C08': ['MiscTimer', 'LayerTx', 'SmallFns'],
     'C09': ['AddressFns', 'AddressInit', 'LayerSend'],
     'C12': ['LayerTxHelpers', 'LayerQueues', 'Exec2Bridge', 'LayerSend'],
-    'C13': ['PyCan', 'Threaded', 'ThreadedWorker'],
+    'C13': ['PyCan', 'Threaded', 'ThreadedWorker', 'SmallFns'],
     'C14': ['LayerQueues', 'Exec2Bridge', 'Threaded', 'ThreadedWorker'],
     'C10': ['LayerProcess', 'LayerWhole'],
-    'C15': ['LayerTxHelpers', 'LimiterLoop'],
+    'C15': ['LayerTxHelpers', 'LimiterLoop', 'SmallFns'],
     'C16': ['AddressValidate', 'AddressInit'],
     'C17': ['LayerTxHelpers', 'LayerTx', 'GenConsume'],
     'C19': ['SockOpts'],
     'C20': ['AddressFns', 'SockOpts', 'SockGuards'],
 }
 # leaves that are finished and committed
-PYAGREE_READY = {'LimiterLoop', 'GenConsume', 'ThreadedWorker', 'Threaded', 'PyCan', 'LayerWhole', 'SockGuards', 'LayerTxWhole', 'MiscFrame', 'LayerProcess', 'LayerTx', 'LayerRx', 'LayerSend', 'LayerTxHelpers', 'LayerQueues', 'Exec2Bridge', 'SockOpts', 'AddressFns', 'AddressValidate', 'AddressInit', 'Pdu', 'MiscFd', 'MiscFc', 'MiscTimer'}
+PYAGREE_READY = {'SmallFns', 'LimiterLoop', 'GenConsume', 'ThreadedWorker', 'Threaded', 'PyCan', 'LayerWhole', 'SockGuards', 'LayerTxWhole', 'MiscFrame', 'LayerProcess', 'LayerTx', 'LayerRx', 'LayerSend', 'LayerTxHelpers', 'LayerQueues', 'Exec2Bridge', 'SockOpts', 'AddressFns', 'AddressValidate', 'AddressInit', 'Pdu', 'MiscFd', 'MiscFc', 'MiscTimer'}
 
 
 def pyagree_theorems(mod):
